@@ -3,11 +3,21 @@ _p = os.path.join(os.path.dirname(os.path.abspath(__file__)), "..", "trees", "tr
 _s = importlib.util.spec_from_file_location("treeunits", _p); tu = importlib.util.module_from_spec(_s); _s.loader.exec_module(tu)
 LEVEL = "model_checking"
 UNITS = list(tu.UNITS)
+# C13 only: the balance step at height 3 already in the quick tier (red-black / AVL fix-up cases that need a grandparent or a
+# nephew do not occur in trees of height 2).  Structural obligations only (-DBALANCE_ONLY), three cases run in parallel.
+for _tr in ("rb", "avl"):
+    for _op, _entry, _can in (("insert", "h_insert", 3), ("remove", "h_remove", 2)):
+        for _sp in (0, 1, 2):
+            UNITS.append(tu.T("%s_%s_h3_case%d" % (_tr, _op, _sp), _entry, _tr, canaries=(_can - 1 if (_op == "insert" and _sp == 0) else _can),
+                              defines=["TREE_" + _tr.upper(), "BALANCE_ONLY", "SPLIT=%d" % _sp], defines_quick=["H=3"], defines_thorough=["H=3"],
+                              cbmc_flags_quick=["--unwind", "9"], cbmc_flags_thorough=["--unwind", "9"],
+                              bound="any valid %s tree of height <= 3 (<= 7 nodes), one %s, case %d of 3 by the position of the key relative to the root; no notifiers, structural obligations only" % (_tr, _op, _sp),
+                              functions=[]))
 REQUIRE_CONFIGURED = ["ptree.c", "ptree-bst.c", "ptree-rb.c", "ptree-avl.c"]
-TECHNIQUE = "BOUNDED stand-in (not an unbounded proof): CBMC on the real ptree*.c from every well-formed tree up to a height bound (BST/ptree.c: 3 quick, 4 thorough; RB/AVL: 2 quick, 3 thorough), one symbolic operation, full re-validation; unwinding assertions on"
+TECHNIQUE = "BOUNDED stand-in (not an unbounded proof): CBMC on the real ptree*.c from every well-formed tree up to a height bound (BST/ptree.c: 3 quick, 4 thorough; RB/AVL full units: 2 quick, 3 thorough; RB/AVL structural units: 3 in both tiers), one symbolic operation, full re-validation; unwinding assertions on"
 LEVEL_TEXT = ("C13 focus: after every insert/remove the red-black invariant (root black, no red-red, equal black height) resp. the AVL invariant (stored balance factor = height difference, within -1..1) holds. Heap-shape induction is not expressible in CBMC contracts (no inductive heap predicates), so the per-operation step is checked from EVERY well-formed tree "
               "within the height bound (symbolic shape, keys, values, colours/balance factors, parent links, with and without notifiers, allocation failure included) rather than for all sizes: "
               "one symbolic insert/remove/lookup/foreach(any stop point)/clear on the real code, then the whole result is re-validated. Since every reachable tree is well-formed, "
               "this is invariant preservation for all operation sequences whose trees stay within the bound. Counted as bounded model checking, never as proved.")
-LEVEL_NOTE = ("Bounded: tree height (see bound per unit in the evidence). Keys are integers under the identity order (every finite total order embeds); comparator user data is passed through "
+LEVEL_NOTE = ("Bounded: tree height (see bound per unit in the evidence). The *_h3_case* units (quick and thorough) check search order, parent links, count and the balance invariant from every valid RB/AVL tree of height <= 3 without notifiers; the full units (all obligations) reach height 3 only in the thorough tier. Keys are integers under the identity order (every finite total order embeds); comparator user data is passed through "
               "but not interpreted. The logarithmic-depth corollaries of the AVL/red-black invariants are textbook mathematics, not machine-checked. Trusted: allocator model.")
